@@ -5,9 +5,9 @@ import json, os, subprocess, sys
 ROOT = os.path.dirname(os.path.abspath(__file__))
 info = json.load(open(sys.argv[1]))
 if info.get("kind") == "mirsym":
-    sys.path.insert(0, os.path.join(ROOT, "mirsym"))
-    import driver
-    sys.exit(1 if driver.replay_file(info) else 0)
+    # re-run the obligation: it replays its own counterexample through the native tool
+    p = subprocess.run(["python3", os.path.join(ROOT, "run.py"), info["property"], "--only", "mirsym:" + info["obligation"]])
+    sys.exit(p.returncode)
 gen = os.path.join(ROOT, "kani", "src", "playback_gen.rs")
 orig = open(gen).read()
 mod = info["harness"].rsplit("::", 1)[0]
